@@ -836,10 +836,53 @@ fn typed_alpha(dt: &DataType, o: &Opts) -> Vec<V> {
     a
 }
 
+/// long CSV fields: plain, multi-byte characters straddling the boundary, quote / delimiter / line
+/// break exactly at the boundary positions, fields made of quotes only (doubling doubles the length)
+pub fn long_csv_strings(thorough: bool) -> Vec<String> {
+    let mut v = vec![];
+    for l in long_lengths(thorough) {
+        v.push(ascii_ramp(l));
+        v.push(straddle(l, "é", 1));
+        v.push(straddle(l, "𝄞", 2));
+        v.push(straddle(l, "\"", 1));
+        v.push(straddle(l, "\"", 0));
+        v.push(straddle(l, ",", 1));
+        v.push(straddle(l, "\",", 1));
+        v.push(straddle(l, "\r\n", 1));
+        v.push(straddle(l, ";'\t ", 2));
+        v.push("\"".repeat(l));
+        v.push(format!(" {} ", ascii_ramp(l - 2)));
+    }
+    v
+}
+
 pub fn build_blocks(ctx: &Ctx) -> Vec<Block> {
     let thorough = !ctx.quick();
     let kdev = ctx.pick(2, 3);
     let mut blocks: Vec<Block> = vec![];
+
+    // ---- long fields: default option point and every 1-deviation point
+    {
+        let long = long_csv_strings(thorough);
+        let mut sizes = DIM_SIZES;
+        sizes[9] = 1;
+        sizes[4] = 3;
+        for p in dev_points(&sizes, 1) {
+            let o = opts_from_point(&p);
+            if !valid_point(&o, false) {
+                continue;
+            }
+            let re = prepare(&o).null_re;
+            let first = Arc::new(string_alpha(&long, &o, &re, true));
+            let rest = Arc::new(string_alpha(&long, &o, &re, false));
+            let short = Arc::new(string_alpha(&strings_a0(), &o, &re, false));
+            let n = first.len() as u64;
+            let utf = DataType::Utf8;
+            blocks.push(Block { family: "long-1x1", opts: o.clone(), types: vec![utf.clone()], rows: 1, alpha: vec![first.clone()], mode: Mode::Product });
+            blocks.push(Block { family: "long-3x1", opts: o.clone(), types: vec![utf.clone()], rows: 3, alpha: vec![first.clone()], mode: Mode::Rotation(n) });
+            blocks.push(Block { family: "long-2x3", opts: o.clone(), types: vec![utf.clone(), utf.clone(), utf.clone()], rows: 2, alpha: vec![first.clone(), short.clone(), rest.clone()], mode: Mode::Rotation(n) });
+        }
+    }
     let a0 = strings_a0();
     let a1 = strings_a1();
     let full = strings_full();
@@ -1126,16 +1169,26 @@ pub fn shrink(c: &Case, stage: &'static str) -> (Case, Fail) {
                 ri += 1;
             }
         }
-        // simplify string cells: drop single characters
+        // simplify string cells: drop single characters (short strings) or halves (long strings)
         for ci in 0..cur.types.len() {
             for ri in 0..cur.cols[ci].len() {
                 if let V::S(s) = cur.cols[ci][ri].clone() {
                     let chars: Vec<char> = s.chars().collect();
-                    for k in 0..chars.len() {
-                        let mut cs = chars.clone();
-                        cs.remove(k);
+                    let cands: Vec<String> = if chars.len() <= 8 {
+                        (0..chars.len())
+                            .map(|k| {
+                                let mut cs = chars.clone();
+                                cs.remove(k);
+                                cs.into_iter().collect()
+                            })
+                            .collect()
+                    } else {
+                        let h = chars.len() / 2;
+                        vec![chars[h..].iter().collect(), chars[..h].iter().collect(), chars[1..].iter().collect(), chars[..chars.len() - 1].iter().collect()]
+                    };
+                    for cand in cands {
                         let mut t = cur.clone();
-                        t.cols[ci][ri] = V::S(cs.into_iter().collect());
+                        t.cols[ci][ri] = V::S(cand);
                         if let Some(f) = fails(&t) {
                             cur = t;
                             last = f;
